@@ -174,6 +174,27 @@ fn gen(r: &mut Rng, tier: &Tier, out: &mut Vec<String>) {
         for (ci, (f, t)) in &tr { s.push_str(&format!(" {}:{}:{}", ci, t, hex(f))); }
         out.push(s);
     }
+    // kinds L / T / H with TCP Fast Open connections (the SYN carries the complete ClientHello or request) and with
+    // connections that use no TCP option at all
+    for case in 0..tier.scale(60, 600) {
+        let k = ['L', 'T', 'H'][case % 3];
+        let n = 2 + r.below(3) as usize;
+        let mut conns: Vec<Vec<Frame>> = Vec::new();
+        for j in 0..n {
+            let ck = match k { 'L' => 1u64, 'H' => 0, _ => *r.pick(&[0u64, 1, 2]) };
+            let mut sp = ConnSpec::new(ck, (case / 3 + j) % 3 == 2, (case as u64 * 13 + j as u64 * 47) % 5000 + j as u64 * 6000);
+            match r.below(3) { 0 => sp.tfo = true, 1 => sp.bare = true, _ => {} }
+            if j == 0 { sp.tfo = k != 'H'; sp.bare = k == 'H'; }
+            let t0 = 1_000_000 + r.below(1000);
+            conns.push(connection(r, &sp, t0));
+        }
+        let tr = interleave(r, &conns, case % 5 == 0);
+        if k == 'H' {
+            let mut s = "h H 1000".to_string();
+            for (ci, (f, t)) in &tr { s.push_str(&format!(" {}:{}:{}", ci, t, hex(f))); }
+            out.push(s);
+        } else { out.push(concrete::line(k, 1000, &tr)); }
+    }
 }
 
 fn main() { main_cli(gen, run) }
